@@ -309,7 +309,7 @@ func c13Eval(r *vrt.Run, c C13Case) c13Out {
 
 // kinds that satisfy each transform's detector, used to keep "applied" rates up
 var c13Affinity = map[string][]int{
-	"TEXT": {gen.KText, gen.KXML, gen.KRecords, gen.KLatin1, gen.KLatin1}, "UTF": {gen.KUTF8}, "EXE": {gen.KExeX86, gen.KExeARM}, "MM": {gen.KWav, gen.KBmp},
+	"TEXT": {gen.KText, gen.KXML, gen.KRecords, gen.KLatin1, gen.KLatin1}, "UTF": {gen.KUTF8}, "EXE": {gen.KExeX86, gen.KExeARM, gen.KExeELF, gen.KExeELF}, "MM": {gen.KWav, gen.KBmp},
 	"DNA": {gen.KDNA}, "PACK": {gen.KSmallAlpha, gen.KDNA, gen.KNumeric}, "RLT": {gen.KRuns, gen.KZeros}, "ZRLT": {gen.KRuns, gen.KZeros, gen.KSkewed},
 	"LZP": {gen.KRepeat, gen.KText}, "ROLZ": {gen.KText, gen.KRepeat}, "ROLZX": {gen.KText, gen.KDNA, gen.KExeX86},
 }
@@ -357,7 +357,7 @@ func kindDataType(kind int) int {
 		return 1
 	case gen.KWav, gen.KBmp:
 		return 2
-	case gen.KExeX86, gen.KExeARM:
+	case gen.KExeX86, gen.KExeARM, gen.KExeELF:
 		return 3
 	case gen.KNumeric:
 		return 4
